@@ -86,6 +86,12 @@ def lemmas(idx):
                         add(cfg, f, vs, ar, st, scaled, '%s: 1/length finite and positive -> self / length' % name, hyps=good, tactic=alg.cond_tac())
                         add(cfg, f, vs, ar, st, fb, '%s: 1/length not finite -> fallback' % name, hyps=bad1, tactic=alg.cond_tac())
                         add(cfg, f, vs, ar, st, fb, '%s: 1/length not positive -> fallback' % name, hyps=bad2, tactic=alg.cond_tac())
+                elif name == 'normalize_and_length' and not ps:
+                    ln = '(k_un FSqrt %s)' % dot(A, A); rcp = '(k1 / %s)%%K' % ln; scaled = ['(%s * %s)%%K' % (x, rcp) for x in A]; ar = [tree_coq(a)]
+                    unitx = ['k1'] + ['k0'] * (len(A) - 1)
+                    add(cfg, f, vs, ar, f['ret'], scaled + [ln], 'normalize_and_length: 1/length finite and positive -> (self / length, length)', hyps=[alg.pred_hyp('FIsFinite', rcp, True), alg.cmp_hyp('FGt', rcp, 'k0', True)], tactic=alg.cond_tac())
+                    add(cfg, f, vs, ar, f['ret'], unitx + ['k0'], 'normalize_and_length: 1/length not finite -> (X, 0)', hyps=[alg.pred_hyp('FIsFinite', rcp, False)], tactic=alg.cond_tac())
+                    add(cfg, f, vs, ar, f['ret'], unitx + ['k0'], 'normalize_and_length: 1/length not positive -> (X, 0)', hyps=[alg.pred_hyp('FIsFinite', rcp, True), alg.cmp_hyp('FGt', rcp, 'k0', False)], tactic=alg.cond_tac())
                 elif name == 'refract' and len(ps) == 2 and tname(ps[0][1]) == tn and ps[1][1] == k:
                     b = sym(structs, st, 'b', vs); e_ = sym(structs, k, 'e', vs); Bv = [l[2] for l in tree_leaves(b)]; eta = e_[2]; ar = [tree_coq(a), tree_coq(b), tree_coq(e_)]
                     ndi = dot(Bv, A); kk = '(k1 - %s * %s * (k1 - %s * %s))%%K' % (eta, eta, ndi, ndi)
@@ -107,6 +113,6 @@ def run(tier, seed):
     files, notes, cover = lemmas(idx)
     per_fn = 8 if tier == 'quick' else 80
     return f1.run('C02', tier, seed, idx, info, t0, files, notes, cover, alg.BOILER_MOD, per_fn,
-        'one algebraic lemma per geometric function (dot, cross, perp_dot, length(_squared), distance(_squared), element sum/product, project/reject, reflect) of the 7 float vector types in three backends against the textbook formula over an arbitrary field; correspondence: %d random calls per function' % per_fn,
+        'one algebraic lemma per geometric function (dot, cross, perp_dot, length(_squared), distance(_squared), element sum/product, project/reject, reflect, refract, the normalize family per path, angle_between/angle_to) of the 7 float vector types in three backends against the textbook formula over an arbitrary field; correspondence: %d random calls per function' % per_fn,
         ['textbook formulas in harness/props/C02.py'],
-        ['PARTIAL: the rounding-error bounds the property states are not proved; normalize family, refract, angle_between are differential (and C18) only'], footer=alg.FOOTER)
+        ['PARTIAL: the rounding-error bounds the property states are not proved; the normalize family (incl. normalize_and_length), refract and angle_between are stated per path with sqrt / acos_approx as uninterpreted primitives'], footer=alg.FOOTER)
